@@ -152,7 +152,7 @@ def run_case(case):
                 violation(res, f'C09:earlier-request-visible:{sp["kind"]}',
                           f'request #{k} ({sp["kind"]} {sp["m"]}) shows marker(s) {foreign} of another request: {text[:300]!r}')
                 continue
-            probs = c08.wellformed(r, c08.environ_method(sp))
+            probs = c08.wellformed(r, c08.environ_method(sp)) + c08.own_text_problems(r, sp)
             if probs:
                 violation(res, f'C09:malformed-response:{sp["kind"]}',
                           f'request #{k} ({sp["kind"]} {sp["m"]}): ' + '; '.join(probs))
